@@ -36,11 +36,13 @@ class VDI(AlignedStream):
         super().__init__(size=self.header.DiskSize)
 
     def _read(self, offset: int, length: int) -> bytes:
-        block_idx, block_offset = divmod(offset, self.block_size)
+        # The stream may ask for a full aligned chunk that runs past the end of the disk
+        length = min(length, self.size - offset)
 
         bytes_read = []
         while length > 0:
-            read_len = min(length, max(length, self.block_size))
+            block_idx, block_offset = divmod(offset, self.block_size)
+            read_len = min(length, self.block_size - block_offset)
 
             block = self.map[block_idx]
 
@@ -57,6 +59,5 @@ class VDI(AlignedStream):
 
             offset += read_len
             length -= read_len
-            block_idx += 1
 
         return b"".join(bytes_read)
